@@ -254,6 +254,7 @@ export function makeValidateJudge(env, compiler, refModel, options) {
 import { renderProgram, mapType } from "../gen/ast.mjs";
 import { ValGen, hostilePool } from "../gen/valgen.mjs";
 import { Rng } from "./rng.mjs";
+import { isCyclic } from "./deep.mjs";
 
 const OP_KINDS = new Set(["index", "keyof", "mapped", "cond", "util", "typeof", "enumMember"]);
 
@@ -275,6 +276,16 @@ function operatorNodes(prog, rootT, env) {
           }
         }
         if (closed && d && (x.args.length > 0 || d.d === "enum" || (d.d === "iface" && d.ext && d.ext.length))) out.push(x);
+      } else if (closed && x.k === "inter") {
+        // an intersection around operator results: the compiler merges intersected object literals only
+        // when it can compare their members, which operator results may prevent (candidate after its operators)
+        let inner = false;
+        for (const m of x.ts)
+          mapType(m, (y) => {
+            if (OP_KINDS.has(y.k) || (y.k === "ref" && y.args.length > 0)) inner = true;
+            return y;
+          });
+        if (inner) out.push(x);
       } else if (closed && OP_KINDS.has(x.k)) {
         if (x.k === "mapped" && env) {
           // operator expressions under the mapped parameter: test them instantiated at a few keys
@@ -307,6 +318,8 @@ function describeOp(env, S) {
     }
   };
   switch (S.k) {
+    case "inter":
+      return `inter-around-operators(${sub(S)})`;
     case "util":
       return `util:${S.name}(${S.args.map(sub).join(",")})`;
     case "index":
@@ -369,7 +382,27 @@ export async function localiseSource(ctx, item, rootT, v, want, options) {
     }
     const vg = new ValGen(new Rng(ctx.seed, "srcloc|" + text.length), env);
     const ms = vg.members(core, 10);
-    const cands = [...subValues, ...ms, ...ms.flatMap((m) => vg.mutants(m, 2)), ...hostilePool()];
+    const cands = [...subValues, ...ms, ...ms.flatMap((m) => vg.mutants(m, 2)), ...hostilePool()].filter((x) => !isCyclic(x)); // (cyclic inputs are C03 / C12's subject)
+    if (strict) {
+      // an operator that already disagrees with the reference in DEFAULT mode on some candidate is
+      // C01's finding; whatever it does in strict mode follows from that
+      let defaultModeDisagrees = false;
+      for (const x of cands) {
+        const rd = item.ref.member(core, x);
+        if (rd === "U") continue;
+        let id;
+        try {
+          id = parser.validate(x) ? "Y" : "N";
+        } catch (e) {
+          id = "T";
+        }
+        if (id !== rd) {
+          defaultModeDisagrees = true;
+          break;
+        }
+      }
+      if (defaultModeDisagrees) return { skip: true };
+    }
     for (const x of cands) {
       const r = strict ? item.ref.strictMember(core, x) : item.ref.member(core, x);
       if (r === "U") continue;
